@@ -46,6 +46,8 @@ type gState struct {
 	prevGot   [][]byte
 	prevWant  [][]byte
 	scratches [][]byte
+	ownInt    *strmap.StrMap[int]
+	ownStr    *strmap.Str2Str
 }
 
 type c14Failure struct {
@@ -413,6 +415,94 @@ func newSharedMaps(r *rand.Rand, n int) *sharedMaps {
 	return m
 }
 
+// every goroutine loads and queries maps of its own (instances are never shared here): a load of one
+// instance must not disturb another instance that is being loaded or queried at the same time
+func (s *gState) cycleOwnMaps(i int) {
+	n := 1 + s.r.Intn(60)
+	wi := make(map[string]int, n)
+	ws := make(map[string]string, n)
+	for k := 0; k < n; k++ {
+		key := fmt.Sprintf("g%d-i%d-k%d-%s", s.g, i, k, string(taggedBytes(s.g, i, k, s.r.Intn(12))))
+		wi[key] = s.g<<20 | i<<8 | k
+		ws[key] = fmt.Sprintf("val-%d-%d-%d", s.g, i, k)
+	}
+	if s.ownInt == nil || s.r.Intn(4) == 0 {
+		s.ownInt, s.ownStr = strmap.New[int](), strmap.NewStr2Str()
+	}
+	if err := s.ownInt.LoadFromMap(wi); err != nil {
+		s.fail("concurrent-own-map", i, "LoadFromMap: %v", err)
+		return
+	}
+	if err := s.ownStr.LoadFromMap(ws); err != nil {
+		s.fail("concurrent-own-map", i, "Str2Str.LoadFromMap: %v", err)
+		return
+	}
+	if s.ownInt.Len() != n || s.ownStr.Len() != n {
+		s.fail("concurrent-own-map", i, "Len after load = %d / %d, want %d", s.ownInt.Len(), s.ownStr.Len(), n)
+		return
+	}
+	for k, v := range wi {
+		if got, ok := s.ownInt.Get(k); !ok || got != v {
+			s.fail("concurrent-own-map", i, "this goroutine's own StrMap lost or changed key %q: (%d, %v), want %d", k, got, ok, v)
+			return
+		}
+		if got, ok := s.ownStr.Get(k); !ok || got != ws[k] {
+			s.fail("concurrent-own-map", i, "this goroutine's own Str2Str lost or changed key %q: (%q, %v), want %q", k, got, ok, ws[k])
+			return
+		}
+	}
+	if _, ok := s.ownStr.Get("absent-key"); ok {
+		s.fail("concurrent-own-map", i, "an absent key is reported present")
+	}
+	s.cycles["own-maps"]++
+}
+
+// a peeked slice kept while a later, larger request makes the reader's buffer grow must still show this
+// goroutine's own bytes just before Release, whatever other goroutines take from the shared pool meanwhile
+func (s *gState) cyclePeekRetain(i int) {
+	total := 4097 + s.r.Intn(12000)
+	data := taggedBytes(s.g, i, 77, total)
+	src := &doubles.Source{Data: data, Len: len(data), ErrAt: len(data), Err: io.EOF, Sched: s.r.Intn(doubles.NSched), R: s.r, Yield: true, Budget: 10*len(data) + 100000}
+	dr := bufiox.NewDefaultReader(src)
+	k := 1 + s.r.Intn(64)
+	head, err := dr.Peek(k)
+	if err != nil || !bytes.Equal(head, data[:k]) {
+		s.fail("concurrent-reader-bytes", i, "Peek(%d) differs from this goroutine's own data (err=%v)", k, err)
+		return
+	}
+	big := 4097 + s.r.Intn(total-4096)
+	var rest []byte
+	if s.r.Intn(2) == 0 {
+		rest, err = dr.Peek(big)
+	} else {
+		rest, err = dr.Next(big)
+	}
+	if err != nil || !bytes.Equal(rest, data[:big]) {
+		s.fail("concurrent-reader-bytes", i, "a %d-byte request after Peek(%d) differs from this goroutine's own data (err=%v)", big, k, err)
+		return
+	}
+	// let other goroutines run and allocate, write something through a writer of our own
+	runtime.Gosched()
+	sink := &doubles.Sink{Yield: true}
+	dw := bufiox.NewDefaultWriter(sink)
+	if b, err := dw.Malloc(3000 + s.r.Intn(2000)); err == nil {
+		for x := range b {
+			b[x] = 0xEE
+		}
+	}
+	dw.Flush()
+	if !bytes.Equal(head, data[:k]) {
+		s.fail("concurrent-retained-slice-changed", i, "the %d bytes returned by Peek changed before Release, after a larger request and other pool users (first diff %d)", k, firstDiff(head, data[:k]))
+		return
+	}
+	if !bytes.Equal(rest, data[:big]) {
+		s.fail("concurrent-retained-slice-changed", i, "the %d bytes of the larger request changed before Release", big)
+		return
+	}
+	dr.Release(nil)
+	s.cycles["peek-retain"]++
+}
+
 func (s *gState) cycleSharedMaps(i int, m *sharedMaps) {
 	// no warm-up lookup: the first Gets on a freshly loaded map happen concurrently
 	for q := 0; q < 40; q++ {
@@ -491,7 +581,11 @@ func monC14(c *drv.Ctx) {
 				// the very first action of every goroutine is a lookup on the freshly loaded maps
 				st.cycleSharedMaps(0, maps[st.g%len(maps)])
 				for i := 1; i <= g.iters && st.failure == nil; i++ {
-					switch st.r.Intn(7) {
+					switch st.r.Intn(9) {
+					case 8:
+						st.cycleOwnMaps(i)
+					case 7:
+						st.cyclePeekRetain(i)
 					case 6:
 						st.cycleFailing(i)
 					case 0, 1:
